@@ -16,10 +16,20 @@ const (
 )
 
 // encodingObjects returns the distinct receiver terms of base64 encode/decode calls on all paths.
+// every way of encoding / decoding with an encoding object
+var encodeMethods = []string{cEncode, "(*encoding/base64.Encoding).AppendEncode", "(*encoding/base64.Encoding).Encode"}
+var decodeMethods = []string{cDecode, "(*encoding/base64.Encoding).AppendDecode", "(*encoding/base64.Encoding).Decode"}
+
 func encodingObjects(sums []Summary, callee string) map[string]bool {
 	out := map[string]bool{}
+	names := []string{callee}
+	if callee == cEncode {
+		names = encodeMethods
+	} else if callee == cDecode {
+		names = decodeMethods
+	}
 	for _, s := range sums {
-		for _, c := range calls(s, callee) {
+		for _, c := range calls(s, names...) {
 			if c.Recv != nil {
 				out[c.Recv.String()] = true
 			}
@@ -137,6 +147,68 @@ func ruleCodecAgreement(w *World, r *Run, rule string) {
 				}
 			}
 			if len(leaves) < 3 {
+				// (c) the body as a string template (append chains, AppendEncode, strconv.Append*): "<prefix><dec>\n" (enc "\n")* "\n" cp
+				if body != nil {
+					pieceCtx = &s
+					pcs := mergeLits(strPieces(body))
+					pieceCtx = nil
+					if len(pcs) >= 2 && pcs[0].k == "lit" && strings.HasPrefix(pcs[0].lit, prefix) && okp {
+						// header: "<prefix><decimal>\n", the decimal either rendered from a value or written out
+						var rest []piece
+						hdrOK := false
+						if pcs[0].lit == prefix && len(pcs) >= 3 && pcs[1].k == "dec" && pcs[2].k == "lit" && strings.HasPrefix(pcs[2].lit, "\n") {
+							hdrOK = true
+							if tail := pcs[2].lit[1:]; tail != "" {
+								rest = append(rest, piece{k: "lit", lit: tail})
+							}
+							rest = append(rest, pcs[3:]...)
+						} else {
+							digits := strings.TrimPrefix(pcs[0].lit, prefix)
+							n := 0
+							for n < len(digits) && digits[n] >= '0' && digits[n] <= '9' {
+								n++
+							}
+							if n > 0 && n < len(digits) && digits[n] == '\n' {
+								hdrOK = true
+								if tail := digits[n+1:]; tail != "" {
+									rest = append(rest, piece{k: "lit", lit: tail})
+								}
+								rest = append(rest, pcs[1:]...)
+							}
+						}
+						checked++
+						r.Check(hdrOK, rule, "add-checkpoint body | writer's size line carries the prefix the reader requires", w.pos(s.RetPos), fmt.Sprintf("writer starts the body with %q but the reader requires the prefix %q followed by a decimal and a newline", pcs[0].lit, prefix))
+						if !hdrOK || len(rest) == 0 {
+							continue
+						}
+						newCP := paramN(w.fn(fnBCUpdate), 3)
+						last := rest[len(rest)-1]
+						lt := last.t
+						for lt != nil && lt.Kind == "conv" && len(lt.Args) == 1 {
+							lt = lt.Args[0]
+						}
+						okShape := last.k == "str" && lt == newCP
+						pat := ""
+						for _, pc := range rest[:len(rest)-1] {
+							switch {
+							case pc.k == "lit":
+								pat += pc.lit
+							case pc.k == "str" && pc.t != nil && pc.t.Kind == "call" && isEncodeCall(pc.t.Name):
+								pat += "E"
+							default:
+								pat += "?"
+							}
+						}
+						// (encoded line "\n")* then the blank line
+						for strings.HasPrefix(pat, "E\n") {
+							pat = pat[2:]
+						}
+						if pat != "\n" {
+							okShape = false
+						}
+						r.Check(okShape, rule, "add-checkpoint body | writer emits proof lines, a blank line, then the checkpoint verbatim", w.pos(s.RetPos), "writer's body is "+piecesString(pcs))
+					}
+				}
 				continue
 			}
 			checked++
@@ -192,7 +264,38 @@ func ruleCodecAgreement(w *World, r *Run, rule string) {
 				}
 			}
 		}
-		good := len(term) == 1 && len(delim) == 1 && term["10"] && delim["\n"]
+		// the writer may also build its output by appending: the terminator is the literal after the encoded element in the
+		// template of a one-element list
+		if len(term) == 0 {
+			for i := range ms {
+				if ms[i].Panic || len(ms[i].Rets) != 1 {
+					continue
+				}
+				pieceCtx = &ms[i]
+				pcs := mergeLits(strPieces(ms[i].Rets[0]))
+				pieceCtx = nil
+				if len(pcs) == 2 && pcs[0].k == "str" && pcs[1].k == "lit" {
+					term[fmt.Sprint([]byte(pcs[1].lit))] = true
+				}
+			}
+			if term["[10]"] {
+				delete(term, "[10]")
+				term["10"] = true
+			}
+		}
+		for _, s := range us {
+			for _, c := range calls(s, "bytes.Split", "bytes.HasSuffix", "bytes.SplitAfter", "bytes.TrimSuffix", "bytes.Cut", "strings.Cut", "bytes.IndexByte", "bytes.Index", "strings.Index", "strings.IndexByte", "bytes.Count") {
+				if len(c.Args) < 2 {
+					continue
+				}
+				if v, ok := constStr(c.Args[1]); ok {
+					delim[v] = true
+				} else if cv, ok := constVal(c.Args[1]); ok && cv.IsInt64() {
+					delim[string(rune(cv.Int64()))] = true
+				}
+			}
+		}
+		good := len(term) == 1 && term["10"] && (len(delim) == 0 || (len(delim) == 1 && delim["\n"]))
 		r.Check(good, rule, "proof text | Marshal's line terminator is Unmarshal's delimiter", w.pos(w.fn(fnMarshal).Pos()), fmt.Sprintf("Marshal terminates lines with %v, Unmarshal splits on %q", term, keysOf(delim)))
 		// order preserving: element i is decoded from line i
 		for _, s := range us {
@@ -201,6 +304,15 @@ func ruleCodecAgreement(w *World, r *Run, rule string) {
 			}
 		}
 	}
+}
+
+func isEncodeCall(name string) bool {
+	for _, m := range encodeMethods {
+		if name == m {
+			return true
+		}
+	}
+	return false
 }
 
 func isDecimal(s string) bool {
